@@ -92,7 +92,7 @@ def run(ctx):
                 "jittered datasets with pairwise-distinct distances (checked in float32, else skipped), exact path: graph of "
                 "fit(X, metric=m) vs fit(D_m(X), 'precomputed') with the library's own distance function (default disconnection distance "
                 "for unbounded metrics, an explicit equal one for the six bounded metrics), sample permutation (conjugation), positive "
-                "rescaling of the distances by 1e-3 .. 1e3, and for euclidean feature permutation / translation; non-trivial = the graph "
+                "rescaling of the distances by 1e-3 .. 1e3, the same data as a CSR matrix (where the metric is accepted for sparse input), and for euclidean feature permutation / translation (also 128-200 features on a dyadic grid with exactly representable offsets); non-trivial = the graph "
                 "has at least 3 distinct strengths")
     ctx.assumptions += ["graphs compared at abs 2e-5 (float32 bisection); dispatch through sklearn.pairwise_distances / numba is tied only by this run",
                         "n >= 4096 (NN-descent) is outside the property's scope"]
@@ -163,7 +163,35 @@ def run(ctx):
                 if w > 1e-3:
                     ctx.violation("scale", f"metric {name}: multiplying all distances by {c} changes the graph by {w} at {at}",
                                   dict(case, factor=c), key=f"C03:{name}:scale")
+            # CSR input takes another route to the same distances (sklearn on sparse data, umap's sparse kernels, or a dense
+            # fall-back with the metric's keyword arguments): same graph as the precomputed matrix
+            import scipy.sparse
+            try:
+                g_csr = umap.UMAP(metric=name, metric_kwds=(kw or None), **base).fit(scipy.sparse.csr_matrix(X)).graph_
+            except (ValueError, TypeError, NotImplementedError) as e:
+                ctx.skip(f"metric not accepted for sparse input: {type(e).__name__}")
+                g_csr = None
+            except Exception as e:  # noqa
+                ctx.violation("exception", f"fit(CSR) with metric {name} raised {type(e).__name__}: {e}", case, key=f"C03:{name}:exception")
+                g_csr = None
+            if g_csr is not None:
+                w, at = gdiff(g_csr, g_pre)
+                ctx.bin("csr_route", mg.canon(name))
+                if w > GRAPH_TOL:
+                    ctx.violation("named-vs-precomputed", f"metric {name}, CSR input: graph differs from the precomputed-distance graph by {w} at {at} "
+                                                          f"({g_csr.nnz} vs {g_pre.nnz} entries)", dict(case, input="csr"), key=f"C03:{name}:precomputed-csr")
             if name == "euclidean":
+                # wide data on a dyadic grid, translated by an offset that float32 represents exactly: every coordinate difference is
+                # unchanged bit for bit, so the graph must be too
+                dw = int(rng.choice([128, 160, 200]))
+                Xw = (np.round(rng.normal(size=(n, dw)) * 256) / 256).astype(np.float32)
+                gw = umap.UMAP(metric=name, **base).fit(Xw).graph_
+                for off in (256.0, 1024.0):
+                    gw2 = umap.UMAP(metric=name, **base).fit((Xw + np.float32(off)).astype(np.float32)).graph_
+                    w, at = gdiff(gw, gw2)
+                    if w > 5e-4:
+                        ctx.violation("euclidean-invariance", f"translating {dw}-feature data by {off} changes the euclidean graph by {w} at {at}",
+                                      {"metric": name, "n": n, "k": k, "features": dw, "offset": off, "X": Xw.tolist()}, key="C03:euclidean:translation")
                 fp = rng.permutation(X.shape[1])
                 g_fp = umap.UMAP(metric=name, **base).fit(X[:, fp].copy()).graph_
                 shift = rng.normal(size=X.shape[1]).astype(np.float32) * 3
